@@ -23,20 +23,31 @@ const (
 // gate: every target is unreachable unless the call `chk` returned nil, and the passphrase argument
 // of chk derives from parameter pw of fn.
 func authGate(c *Ctx, key string, fn *ssa.Function, chk *ssa.Call, pwArg ssa.Value, pwParam string, targets []ssa.Instruction, what string) {
-	if chk == nil || len(targets) == 0 {
+	authGateLoc(c, key, fn, stepLoc{Site: chk, Step: chk}, pwArg, pwParam, targets, what)
+}
+
+// authGateLoc: the credential check may be performed by a keystore function fn calls (loc.Via): then
+// that function must fail when the check fails, and fn is gated on the call of that function.
+func authGateLoc(c *Ctx, key string, fn *ssa.Function, loc stepLoc, pwArg ssa.Value, pwParam string, targets []ssa.Instruction, what string) {
+	chk := loc.Site
+	if chk == nil || loc.Step == nil || len(targets) == 0 {
 		c.Bad("C03-AUTH", key, c.Pos(fn.Pos()), "reason=anchor-missing: credential check or guarded effect not found ("+what+")")
+		return
+	}
+	if ok, why := stepFailsVia(loc); !ok {
+		c.Bad("C03-AUTH", key, c.Pos(loc.Step.Pos()), "a failed credential check does not fail the function the operation relies on for it: "+why)
 		return
 	}
 	if len(errResults(chk)) == 0 || len(nilTestsOf(fn, errResults(chk)[0])) == 0 {
 		c.Bad("C03-AUTH", key, c.Pos(chk.Pos()), "the result of the credential check is not tested")
 		return
 	}
-	if !backSlice(pwArg).hasParam(outermost(fn), pwParam) {
+	if !sliceVia(pwArg, loc).hasParam(outermost(fn), pwParam) {
 		c.Bad("C03-AUTH", key, c.Pos(chk.Pos()), "the credential checked is not the caller's "+pwParam)
 		return
 	}
 	if ok, at := unreachableWhenCut(fn, errorEdgeCut(fn, chk, false), targets); ok {
-		c.OK("C03-AUTH", key, c.Pos(chk.Pos()), what+" only behind the success edge of "+shortID(calleeID(chk))+"("+pwParam+")")
+		c.OK("C03-AUTH", key, c.Pos(chk.Pos()), what+" only behind the success edge of "+shortID(calleeID(loc.Step))+"("+pwParam+")")
 	} else {
 		c.Bad("C03-AUTH", key, c.Pos(at.Pos()), what+" is reachable without a successful check of the current passphrase")
 	}
@@ -154,13 +165,14 @@ func checkC03(c *Ctx) Meta {
 		authGate(c, "changePrivPassphrase:decrypt-with-old", f, um, arg2, "oldPrivPass", targets, "re-encrypting the private crypto key")
 	}
 	if f := c.MustFn("C03-AUTH", "poc/wallet/keystore", "(*KeystoreManagerForPoC).allocAddrMgrNamespace"); f != nil {
-		um := firstCall(f, idUnmarshalMP)
+		var loc stepLoc
 		var arg ssa.Value
-		if um != nil {
-			arg = um.Call.Args[1]
+		if ums := findSteps(f, func(cl *ssa.Call) bool { return isCall(cl, idUnmarshalMP) }, 2); len(ums) > 0 {
+			loc = ums[0]
+			arg = loc.Step.Call.Args[1]
 		}
 		targets := callInstrs(callsIn(f, pkgKeystore+".putMasterKeyParams", pkgKeystore+".putCryptoKeys", pkgKeystore+".putMasterHDKeys", pkgKeystore+".createManagerKeyScope"))
-		authGate(c, "allocAddrMgrNamespace:file-passphrase", f, um, arg, "oldPass", targets, "storing the imported keystore")
+		authGateLoc(c, "allocAddrMgrNamespace:file-passphrase", f, loc, arg, "oldPass", targets, "storing the imported keystore")
 	}
 	if f := c.MustFn("C03-AUTH", "poc/wallet/keystore", "(*KeystoreManagerForPoC).ChangePubPassphrase"); f != nil {
 		var chk *ssa.Call
@@ -273,6 +285,8 @@ func checkC03(c *Ctx) Meta {
 	// ---- HIER: private material is sealed only under the private hierarchy (the C04 key-hierarchy rule,
 	// here as the premise of "usable only with the private passphrase")
 	c.Rule("C03-HIER", "private keys, the master HD key and the private crypto key are encrypted only under keys of the private hierarchy (never under the public crypto key or the public master key, which a locked wallet holds), and an encrypting key is never used after it was zeroed", 12)
+	c.Rule("C03-TXRUN", "a passphrase change that is acknowledged was committed: db.Update returns the error of BeginTx, of the body and of Commit on every path and reports success only after tx.Commit — otherwise the superseded passphrase still opens the wallet after a restart", 5)
+	checkTxRunner(c, "C03-TXRUN")
 	{
 		t := newTaintCtx(c)
 		var fns []*ssa.Function
@@ -481,18 +495,22 @@ func checkEraser(c *Ctx) {
 	// Lock
 	if lk := c.MustFn(rule, "poc/wallet/keystore", "(*KeystoreManagerForPoC).Lock"); lk != nil {
 		rangeOK, callIn, flag := false, false, false
-		allInstrs(lk, func(in ssa.Instruction) {
-			if rg, isR := in.(*ssa.Range); isR && backSlice(rg.X).hasField(tKMC, "managedKeystores") {
-				rangeOK = true
-			}
-			if cl, isC := in.(*ssa.Call); isC && isCall(cl, "(*"+tAddrMgr+").clearPrivKeys") && blockReentered(lk, cl) {
-				callIn = true
-			}
-		})
-		for _, a := range fieldAccesses(lk) {
-			if a.Kind == "store" && a.Field == "unlocked" && a.Type == tKMC {
-				if k, ok := strip(a.In.(*ssa.Store).Val).(*ssa.Const); ok && k.Value.String() == "false" {
-					flag = true
+		// Lock's body: Lock itself plus the unexported helpers it calls (bounded inlining, summary.go)
+		for _, g := range bodyFns(lk, exceptExported) {
+			g := g
+			allInstrs(g, func(in ssa.Instruction) {
+				if rg, isR := in.(*ssa.Range); isR && backSlice(rg.X).hasField(tKMC, "managedKeystores") {
+					rangeOK = true
+				}
+				if cl, isC := in.(*ssa.Call); isC && isCall(cl, "(*"+tAddrMgr+").clearPrivKeys") && blockReentered(g, cl) {
+					callIn = true
+				}
+			})
+			for _, a := range fieldAccesses(g) {
+				if a.Kind == "store" && a.Field == "unlocked" && a.Type == tKMC {
+					if k, ok := strip(a.In.(*ssa.Store).Val).(*ssa.Const); ok && k.Value.String() == "false" {
+						flag = true
+					}
 				}
 			}
 		}
